@@ -100,6 +100,7 @@ type Frame struct {
 	edgeReach map[edgeKey]string
 	frameT    map[string][]modTarget
 	loopHavoc map[*ssa.BasicBlock][]string
+	loopKeep  map[string]bool
 }
 
 type rangeInfo struct {
@@ -326,11 +327,11 @@ func (e *Exec) allocFact(st *State, term string, t types.Type) string {
 	a := e.hget(st, "G_alloc")
 	switch u := t.Underlying().(type) {
 	case *types.Pointer, *types.Map, *types.Chan:
-		return "(<= " + term + " " + a + ")"
+		return "(<= (root " + term + ") " + a + ")"
 	case *types.Slice:
-		return "(<= (s_arr " + term + ") " + a + ")"
+		return "(<= (root (s_arr " + term + ")) " + a + ")"
 	case *types.Interface:
-		return "(<= (i_val " + term + ") " + a + ")"
+		return "(<= (root (i_val " + term + ")) " + a + ")"
 	case *types.Struct:
 		if e.sc.opaqueStruct(t) || isTimeTime(t) {
 			return "true"
@@ -486,10 +487,11 @@ func (e *Exec) merge(states []*State) *State {
 	}
 	out := &State{heap: map[string]string{}, cells: map[string]string{}, base: live[0].base, panicking: live[0].panicking}
 	var rs []string
+	mixed := false
 	for _, s := range live {
 		rs = append(rs, s.reach)
 		if s.base != out.base {
-			e.errorf("merge of states with different heap bases")
+			mixed = true
 		}
 	}
 	rn := e.sc.freshName("reach")
@@ -500,6 +502,14 @@ func (e *Exec) merge(states []*State) *State {
 		for k := range s.heap {
 			keys[k] = true
 		}
+	}
+	if mixed {
+		// some paths went through a "havoc everything" (unknown callee, modifies *): every heap map known
+		// so far is merged explicitly; maps first touched later start from a fresh unknown value
+		for k := range e.heapSort {
+			keys[k] = true
+		}
+		out.base = e.sc.freshName("J")
 	}
 	ks := make([]string, 0, len(keys))
 	for k := range keys {
@@ -998,6 +1008,7 @@ func (e *Exec) enterLoop(fr *Frame, st *State, hdr *ssa.BasicBlock, ord int, bod
 		e.sc.uncontracted[fmt.Sprintf("loop %d of %s has no invariant (havoc only)", ord, fr.fn.Name())] = true
 	}
 	// havoc set first: the automatic frame invariants range over it
+	fr.loopKeep = nil
 	ws, all := e.writeSet(fr, body)
 	if fr.loopHavoc == nil {
 		fr.loopHavoc = map[*ssa.BasicBlock][]string{}
@@ -1013,7 +1024,27 @@ func (e *Exec) enterLoop(fr *Frame, st *State, hdr *ssa.BasicBlock, ord int, bod
 		// G_alloc only grows
 		oldAlloc := e.hget(st, "G_alloc")
 		e.sc.assume(st.reach, "(>= "+e.hget(ns, "G_alloc")+" "+oldAlloc+")")
-		// held locks are not changed by havoc of heap in loops unless lock ops appear; keep conservative: havoc too
+		// field maps preserved by every "modifies *" callee and not written otherwise keep their values
+		// for all objects that existed when the loop was entered
+		written := map[string]bool{}
+		for _, m := range ws {
+			written[m] = true
+		}
+		for m := range fr.loopKeep {
+			if written[m] {
+				continue
+			}
+			if _, ok := e.heapSort[m]; !ok {
+				continue
+			}
+			n := e.hhavoc(ns, m)
+			q := e.sc.freshName("q.r")
+			e.sc.assume(st.reach, fmt.Sprintf("(forall ((%s Int)) (! (=> %s (= (select %s %s) (select %s %s))) :pattern ((select %s %s))))", q, e.existedAtEntry(q, oldAlloc), n, q, e.hget(st, m), q, n, q))
+		}
+		// the held-lock set belongs to this goroutine: only lock operations change it
+		if !written["G_held"] {
+			ns.heap["G_held"] = e.hget(st, "G_held")
+		}
 	} else {
 		for _, m := range ws {
 			if m == "G_alloc" {
@@ -1144,6 +1175,20 @@ func (e *Exec) writeSet(fr *Frame, body map[*ssa.BasicBlock]bool) (maps []string
 					eff, a := e.callEffects(fr, x.Common(), depth)
 					if a {
 						all = true
+						// maps that every "modifies *" callee in the loop preserves
+						pres := map[string]bool{}
+						for _, m := range e.callPreserves(x.Common()) {
+							pres[m] = true
+						}
+						if fr.loopKeep == nil {
+							fr.loopKeep = pres
+						} else {
+							for m := range fr.loopKeep {
+								if !pres[m] {
+									delete(fr.loopKeep, m)
+								}
+							}
+						}
 					}
 					for _, m := range eff {
 						set[m] = true
